@@ -318,8 +318,8 @@ macro "gen_agree" : tactic => `(tactic|
    all_goals (first
      | (simp only [R.val.injEq, TS.mk.injEq, Dur.mk.injEq, reduceCtorEq, and_true, true_and, and_self]; done)
      | (simp only [R.val.injEq, TS.mk.injEq, Dur.mk.injEq, reduceCtorEq, and_true, true_and, and_self]; omega)
-     | omega
-     | contradiction)))
+     | contradiction
+     | omega)))
 
 /-- **`+ Duration`** as written in the source = the model, for every TimeSpec and every Duration -/
 theorem gen_agrees_add (rel : Bool) (t : TS) (d : Dur) (ht : RawTS t) (hd : NormDur d) :
